@@ -4,7 +4,7 @@
    universally quantified; what is assumed about them is stated as hypotheses H1/H2 of the
    theorems (validated for the generated family by the torn-write sweep of harness/c11.py). *)
 From SV Require Import Lib.Base C11.Model C11.Reader C11.NameProofs C11.CacheProofs C11.ReaderProofs
-  C11.Interleave.
+  C11.Interleave C11.MemReader C11.MemProofs.
 
 Definition format_roundtrips (ser : kind -> N -> bytes) (deser : kind -> bytes -> option N) : Prop :=
   forall k o, deser k (ser k o) = Some o.
@@ -267,6 +267,37 @@ Theorem wrapped_stale_refuted :
   = [Some ([1]%N, COk true true); Some ([], COk true false)].
 Proof. split; vm_compute; reflexivity. Qed.
 Print Assumptions wrapped_stale_refuted.
+
+(* ------------------------------------------------------------------ *)
+(* a cache handing back live objects (user-defined in-memory Cache)     *)
+(* ------------------------------------------------------------------ *)
+
+(* whatever the cache holds and whichever client built (and still holds) the cached WSDL
+   object: the client being built ends with ITS options attached to the object it gets and with
+   the wrapped/bare decision of ITS unwrap option -- never the first client's settings *)
+Theorem mem_options_reattached : forall md5 w i pol unwrap s,
+  let '(f, o, out, s') := mdefs_open md5 w i pol unwrap s in
+  out = COk true (w_docstyle w && unwrap) /\
+  heap_get (m_heap s') o = Some (i, w_docstyle w && unwrap).
+Proof. exact mem_options_reattached_l. Qed.
+Print Assumptions mem_options_reattached.
+
+Theorem mem_warm_fetches_nothing : forall md5 w i j pol u1 u2 s,
+  pol = 0%N \/ pol = 1%N ->
+  let '(_, o1, _, s1) := mdefs_open md5 w i pol u1 s in
+  let '(f2, o2, _, _) := mdefs_open md5 w j pol u2 s1 in
+  f2 = [] /\ (pol = 1%N -> o2 = o1).
+Proof. exact mem_warm_fetches_nothing_l. Qed.
+Print Assumptions mem_warm_fetches_nothing.
+
+(* three clients, policy 1: the later ones fetch nothing, each follows its own unwrap; they
+   share one object, so in the end only the last one still finds its own options on it *)
+Example mem_clients_nonvacuous :
+  let (rs, s) := mrun (fun u => [u]%N) (mkworld 1 [1; 2]%N [true] true) 0 (mkm [] [])
+                      [(1, true); (1, false); (1, true)]%N in
+  rs = [([1; 2]%N, 2000%N, COk true true); ([], 2000%N, COk true false); ([], 2000%N, COk true true)]
+  /\ still_own (m_heap s) 0 rs = [false; false; true].
+Proof. vm_compute. split; reflexivity. Qed.
 
 (* ------------------------------------------------------------------ *)
 (* non-vacuity: the hypotheses are satisfiable -- by the very instance   *)
